@@ -24,6 +24,7 @@
 use std::sync::OnceLock;
 use vcore::{Cfg, Check, Cx, Finding, Meta, Tier, Value, Violation, json};
 
+mod extra;
 mod impls;
 mod macros;
 mod model;
@@ -564,7 +565,7 @@ impl Check for C18 {
         "C18"
     }
     fn units(&self, cfg: &Cfg) -> usize {
-        plan(cfg.tier).units.len() + 1 + impls::n_units()
+        plan(cfg.tier).units.len() + 1 + impls::n_units() + extra::n_units()
     }
     fn run_unit(&self, unit: usize, cx: &mut Cx) {
         if !cx.case(vcore::SUB_SETUP) {
@@ -582,7 +583,9 @@ impl Check for C18 {
             return;
         }
         let pl = plan(cx.cfg.tier);
-        if unit > pl.macro_unit {
+        if unit > pl.macro_unit + impls::n_units() {
+            extra::run(unit - pl.macro_unit - 1 - impls::n_units(), cx);
+        } else if unit > pl.macro_unit {
             impls::run(unit - pl.macro_unit - 1, cx);
         } else if unit == pl.macro_unit {
             macros::run(cx);
@@ -594,6 +597,9 @@ impl Check for C18 {
         let pl = plan(cfg.tier);
         if sub == vcore::SUB_SETUP {
             return json!({"library": "let mut rt = Runtime::new();\n", "uses": [], "model_defects": []});
+        }
+        if unit > pl.macro_unit + impls::n_units() {
+            return extra::describe(unit - pl.macro_unit - 1 - impls::n_units(), sub);
         }
         if unit > pl.macro_unit {
             return impls::describe(unit - pl.macro_unit - 1, sub);
